@@ -61,6 +61,9 @@ type pushSim struct {
 	stopped  bool // endpoint removed from the subscription: no new pushes expected
 	stopAt   time.Time
 	stalled  bool
+	// nackRace: ack ids whose failed, slow request may be processed (and, with the attempts
+	// used up by an overlapping second push, dead-letter the delivery) only after a later fetch
+	nackRace map[string]bool
 }
 
 type envelope struct {
@@ -129,6 +132,12 @@ func (ps *pushSim) RoundTrip(req *http.Request) (*http.Response, error) {
 				v.Prop = "C19"
 			}
 			return v
+		}
+		if e := r.M.AckIDs[rm.AckID]; e != nil && ps.nackRace[rm.AckID] && ps.sub.Cfg.fullDL() && e.State == stOut && e.Seen >= int(ps.sub.Cfg.MaxAttempts) {
+			// the nack of the earlier, slow request is processed after this fetch raised the
+			// attempt count: it dead-letters the delivery while this request is in flight
+			r.M.deadLetterMaybe(e, now)
+			return nil
 		}
 		if e := r.M.AckIDs[rm.AckID]; e != nil && ps.stalled && ps.sub.Cfg.fullDL() && e.State == stOut && e.Seen >= int(ps.sub.Cfg.MaxAttempts) {
 			// stalled-server runs: if the lease lapses while this last allowed attempt is
@@ -224,6 +233,9 @@ func (ps *pushSim) RoundTrip(req *http.Request) (*http.Response, error) {
 				r.M.deadLetter(e, t1, t1.Add(time.Second))
 				r.M.probe("dl_via_nack")
 			} else if e.State == stOut {
+				if relaxed {
+					ps.nackRace[ack] = true
+				}
 				if relaxed && ps.sub.Cfg.fullDL() && e.Seen+1 >= int(ps.sub.Cfg.MaxAttempts) {
 					// stalled-server runs: an overlapping second push may already have raised
 					// the attempt count, in which case this nack dead-letters the delivery
@@ -320,7 +332,7 @@ func runPush(t *testing.T, tape *Tape, w *World, variant string, steps int, out 
 	if stalled {
 		r.Stats["push_stalled_server_runs"]++
 	}
-	ps := &pushSim{r: r, sub: sub, fail: fail, pending: &pending, seen: map[string]int{}, stalled: stalled}
+	ps := &pushSim{r: r, sub: sub, fail: fail, pending: &pending, seen: map[string]int{}, stalled: stalled, nackRace: map[string]bool{}}
 	ps.script = func(p *pushReq) {
 		if tape.Bool(okBias) {
 			p.status = []int{200, 201, 202, 204, 102}[tape.Intn(5)]
@@ -484,6 +496,7 @@ func runPush(t *testing.T, tape *Tape, w *World, variant string, steps int, out 
 		// in flight can exceed the window without the pending set doing so.)
 	}
 	settleNacks := func() {
+		clear(ps.nackRace) // quiescent: every nack has been processed
 		now := time.Now()
 		for _, e := range sub.EDs {
 			if e.State == stOut && e.Cause == "nack" && e.LeaseHi.Equal(farFuture) {
